@@ -83,6 +83,99 @@ def _validate_all(ctx, events, tag):
     return findings, total_events
 
 
+def _session(ctx, binary):
+    """Design-level extension (not a listed property): spec/proto/ChainSyncSession.tla - a chain producer that grows
+    and switches forks behind a real chainsync::Server, a real chainsync::Client feeding the real RollbackBuffer.
+    Agent states / agency are C23 matter (verdict); payload integrity and buffer content are reported as DRIFT."""
+    sec = {"model": "spec/proto/ChainSyncSession.tla", "drift": []}
+    # MC: every interleaving on small constants
+    mcfg = "MCChainSyncSession.cfg"
+    if ctx.thorough:
+        mcfg = ctx.path("MCChainSyncSession4.cfg")
+        src = open(os.path.join(vlib.SPEC, "proto", "MCChainSyncSession.cfg")).read()
+        open(mcfg, "w").write(src.replace("MaxBlocks = 3", "MaxBlocks = 4").replace("MaxSwitch = 1", "MaxSwitch = 2")
+                              .replace("Depths = {1}", "Depths = {0, 1}"))
+    r = ctx.tlc_mc("proto", "MCChainSyncSession", mcfg, workers=4, timeout=1500,
+                   required_actions=["Grow", "Switch", "ServerRecv", "ServerReply", "CSend", "ClientRecv", "ClientPop"])
+    sec["mc"] = {"cfg": os.path.basename(mcfg), "distinct": r["distinct"], "generated": r["generated"],
+                 "invariants": ["AgencyOK", "ViewConsistent", "BufferOrdered", "OutOfScopeJustifiedStep"]}
+
+    # M2: TLC scripts -> real Client + Server + RollbackBuffer
+    scripts = ctx.path("session_scripts.ndjson")
+    num, depth = (400, 60) if ctx.thorough else (25, 45)
+    gcfg = ctx.path("GenChainSyncSession.cfg")
+    src = open(os.path.join(vlib.SPEC, "proto", "GenChainSyncSession.cfg")).read()
+    open(gcfg, "w").write(src.replace("MaxOps = 40", "MaxOps = %d" % (depth - 5)))
+    n = ctx.tlc_gen("proto", "GenChainSyncSession", gcfg, scripts, workers=1, simulate=(num, depth), timeout=1500)
+    res = ctx.path("session_replay.ndjson")
+    out = ctx.run_bin(binary, ["session-replay", "--in", scripts, "--out", res])
+    summ = json.loads(out.strip().splitlines()[-1])
+    rows = vlib.read_ndjson(res)
+    if summ["scripts"] != n or len(rows) != 2 * n:
+        raise vlib.ToolError("session replay ran %d rows for %d scripts" % (len(rows), n))
+    sec["m2"] = {"scripts": n, "replays": len(rows), "steps": summ["steps"], "failed": sum(1 for r in rows if not r["ok"])}
+    ctx.cov["traces_validated_against_impl"] += len(rows)
+    ctx.cov["evaluations"] += summ["steps"]
+    for r in rows:
+        if r["ok"]:
+            continue
+        f = r["fail"]
+        at = f.get("at", {})
+        what = "chain-sync session script %d (%s) step %s (%s %s): %s expected %s, got %s" % (
+            r["i"], r["mode"], f["step"], at.get("a"), at.get("msg", ""), f["field"], json.dumps(f["want"]), json.dumps(f["got"]))
+        if f["kind"] == "state":
+            ctx.report("session/chainsync/%s/%s-%s" % (f["field"].replace(" ", "_"), at.get("a"), at.get("msg", "")), what, payload=r,
+                       src_file=scripts)
+        else:
+            sec["drift"].append(what)
+
+    # M3: random producer / client policy -> TraceChainSyncSession (level 2 = script + agent states + buffer)
+    tr = ctx.path("session_trace.ndjson")
+    runs, steps = (60, 120) if ctx.thorough else (6, 80)
+    ctx.run_bin(binary, ["session-trace", "--seed", ctx.seed, "--runs", runs, "--steps", steps, "--out", tr])
+    ok, matched, total, first = ctx.tlc_trace("proto", "TraceChainSyncSession", "TraceChainSyncSession2.cfg", tr)
+    sec["m3"] = {"runs": runs, "events": total, "matched_level2": matched}
+    ctx.cov["traces_validated_against_impl"] += runs
+    ctx.cov["evaluations"] += total
+    if not ok:
+        ok1, m1, _, f1 = ctx.tlc_trace("proto", "TraceChainSyncSession", "TraceChainSyncSession1.cfg", tr, count=False)
+        if ok1:
+            sec["drift"].append("session trace event %d accepted with agent states but not with the buffer content: %s"
+                                % (matched + 1, json.dumps(first)[:300]))
+        else:
+            ok0, m0, _, f0 = ctx.tlc_trace("proto", "TraceChainSyncSession", "TraceChainSyncSession0.cfg", tr, count=False)
+            if ok0 or (f1 or {}).get("err"):
+                ctx.report("session/chainsync/trace/%s-%s" % (f1.get("a"), f1.get("msg", "")),
+                           "chain-sync session: after event %d the agents' states %s/%s (or an agent error %r) do not follow "
+                           "the table: %s" % (m1 + 1, f1.get("cst"), f1.get("sst"), f1.get("err", ""), json.dumps(f1)[:300]),
+                           payload={"event": f1, "event_index": m1 + 1}, src_file=tr)
+            else:
+                raise vlib.ToolError("session driver and model disagree at event %d: %s" % (m0 + 1, json.dumps(f0)[:300]))
+    elif not ctx.violations:
+        # self-test: a wrong buffer content must be noticed at level 2 and pass at level 1; a wrong agent state not
+        ev = vlib.read_ndjson(tr)
+        i = next(k for k, e in enumerate(ev) if e["a"] == "c_recv" and e["msg"] == "RollForward" and k > 5)
+        c = [dict(e) for e in ev[: i + 3]]
+        c[i]["buf"] = c[i]["buf"][:-1]
+        p1 = ctx.path("session_trace_badbuf.ndjson")
+        vlib.write_ndjson(p1, c)
+        okb, mb, _, _ = ctx.tlc_trace("proto", "TraceChainSyncSession", "TraceChainSyncSession2.cfg", p1, count=False)
+        ctx.selftest("session: buffer content of event %d corrupted (level 2)" % (i + 1), (not okb) and mb == i)
+        if ctx.thorough:
+            c = [dict(e) for e in ev[: i + 3]]
+            c[i]["cst"] = "CanAwait"
+            p2 = ctx.path("session_trace_badstate.ndjson")
+            vlib.write_ndjson(p2, c)
+            oks, ms, _, _ = ctx.tlc_trace("proto", "TraceChainSyncSession", "TraceChainSyncSession1.cfg", p2, count=False)
+            ctx.selftest("session: client state of event %d corrupted (level 1)" % (i + 1), (not oks) and ms == i)
+    for d in sec["drift"][:5]:
+        ctx.notes.append("DRIFT " + d)
+    sec["drift"] = sec["drift"][:20]
+    ctx.cov["chainsync_session"] = sec
+    with open(scripts) as f:
+        ctx.sample({"session_script_head": json.loads(f.readline())[:4]})
+
+
 def run(ctx):
     binary = ctx.build("pv-proto")
     ctx.assume("tables transcribed by hand from the network spec (DESIGN 3.5); tx-monitor allows both Acquire and "
@@ -165,10 +258,13 @@ def run(ctx):
         ctx.selftest("drop every probe of one (state, message) pair (event %d)" % (lone[0] + 1),
                      (not ok3) and f3 is not None and f3.get("ev") == "end", "matched %d/%d" % (m3, t3))
 
+    _session(ctx, binary)
+
     return ctx.finish(
         rule="MC: tables + session model; M1/M2: TLC enumerates every (protocol, role, state, direction, message) of the "
              "9 original-stack protocols with a shortest path and every maximal valid message sequence <= %d; each is "
              "executed on real agents over in-process plexers through every public entry point; M3: every call and "
              "walk validated by TraceAgent (allowed iff agency + table; next state; rejection leaves the state), "
-             "coverage of all required probes enforced at the end of the trace" % (10 if ctx.thorough else 5),
+             "coverage of all required probes enforced at the end of the trace; extra (design level): chain-sync session "
+             "model (MC + TLC scripts replayed on real Client/Server/RollbackBuffer + random session traces)" % (10 if ctx.thorough else 5),
         exhaustive=True)
